@@ -144,6 +144,72 @@ pub fn https_proxy(cert: &'static str) -> Peer {
     tls_server(cert)
 }
 
+/// https proxy carrying a CONNECT tunnel: TLS to the proxy itself (presenting `cert`), a CONNECT request inside that session,
+/// 200, then a second TLS session inside the first in which the origin presents the `good` fixture.
+pub fn https_proxy_then_tls(cert: &'static str) -> Peer {
+    let (l, addr) = listener();
+    let seen = Arc::new(Mutex::new(Seen::default()));
+    let s2 = seen.clone();
+    let handle = std::thread::spawn(move || {
+        if let Ok((sock, _)) = l.accept() {
+            s2.lock().unwrap().accepted = true;
+            let _ = sock.set_read_timeout(Some(Duration::from_secs(5)));
+            let _ = sock.set_write_timeout(Some(Duration::from_secs(5)));
+            let outer = match ServerConnection::new(server_config(cert)) {
+                Ok(c) => c,
+                Err(e) => {
+                    s2.lock().unwrap().tls_error = Some(e.to_string());
+                    return;
+                }
+            };
+            let mut outer = StreamOwned::new(outer, sock);
+            match read_head(&mut outer) {
+                Ok(h) if h.starts_with("CONNECT ") && h.ends_with("\r\n\r\n") => {
+                    s2.lock().unwrap().connect_head = Some(h);
+                    if outer.write_all(b"HTTP/1.1 200 Connection established\r\n\r\n").is_err() || outer.flush().is_err() {
+                        return;
+                    }
+                    let inner = match ServerConnection::new(server_config("good")) {
+                        Ok(c) => c,
+                        Err(_) => return,
+                    };
+                    let mut inner = StreamOwned::new(inner, outer);
+                    match read_head(&mut inner) {
+                        Ok(h) if h.ends_with("\r\n\r\n") => {
+                            s2.lock().unwrap().request_head = Some(h);
+                            let _ = inner.write_all(OK_RESPONSE);
+                            inner.conn.send_close_notify();
+                            let _ = inner.flush();
+                            inner.sock.conn.send_close_notify();
+                            let _ = inner.sock.flush();
+                        }
+                        Ok(_) => {
+                            s2.lock().unwrap().tls_error.get_or_insert("inner session closed before a request arrived".into());
+                        }
+                        Err(e) => {
+                            s2.lock().unwrap().tls_error = Some(format!("inner: {e}"));
+                        }
+                    }
+                    let _ = inner.sock.sock.shutdown(std::net::Shutdown::Both);
+                }
+                Ok(h) => {
+                    if !h.is_empty() {
+                        s2.lock().unwrap().connect_head = Some(h);
+                    } else {
+                        s2.lock().unwrap().tls_error.get_or_insert("connection closed before a CONNECT arrived".into());
+                    }
+                    let _ = outer.sock.shutdown(std::net::Shutdown::Both);
+                }
+                Err(e) => {
+                    s2.lock().unwrap().tls_error = Some(e.to_string());
+                    let _ = outer.sock.shutdown(std::net::Shutdown::Both);
+                }
+            }
+        }
+    });
+    Peer { addr, seen, handle: Some(handle) }
+}
+
 // ---------------------------------------------------------------------------------------------
 // per-address behaviours for the connection race (C17)
 
